@@ -140,6 +140,8 @@ def make_case(rng, size="small", klass=None, meters=None, features=None, divs=No
     n_measures = {"tiny": rng.randint(1, 2), "small": rng.randint(2, 5), "large": rng.randint(5, 12)}[size]
     if divs is None:
         divs = rng.choice(DIVS)
+    if n_measures == 1:
+        features = [f for f in features if f != "pickup"]     # a lone pickup bar would be a truncated final measure
     part, meta = gen_score.make_part(rng, "P1", features=features, divs=divs, meters=meters, n_measures=n_measures,
                                      voices=(rng.randint(2, 3) if "multivoice" in features else 1))
     c.part, c.meta, c.features = part, meta, features
